@@ -286,20 +286,23 @@ def run(rep, tier):
     pool = ThreadPoolExecutor(max_workers=3)
     t0 = time.time()
     # ---- design level
-    f_check = pool.submit(model_check, "X05_Ide", "X05_Ide_fixed.cfg" if quick else "X05_Ide_deep.cfg", wd=wd / "mc", workers=2, timeout=6000)
+    f_check = pool.submit(tlc, "X05_Ide", "X05_Ide_check.cfg" if quick else "X05_Ide_deep.cfg", wd=wd / "mc", workers=1, timeout=6000)
     f_emit = pool.submit(tlc, "X05_Ide", "X05_Ide_emit.cfg", wd=wd / "emit", workers=1, timeout=3000)
     f_sim = pool.submit(tlc, "X05_Ide", "X05_Ide_sim.cfg", wd=wd / "sim", simulate="num=%d" % nsim, depth=8, seed_=seed() + 1, timeout=3000)
     f_mut = {}
     # quick: three cheap mechanism mutants; thorough: every mechanism, and its counterexample becomes a vector
     for sw in (["SwTotal", "SwLoadUser", "SwFailKeeps"] if quick else SWITCHES):
-        c = cfg_file(wd, "X05_Ide_%s.cfg" % sw, "X05_Ide_fixed.cfg", {sw: "FALSE", "MaxOps": 5})
+        c = cfg_file(wd, "X05_Ide_%s.cfg" % sw, "X05_Ide_fixed.cfg", {sw: "FALSE"})
         f_mut[sw] = pool.submit(tlc, "X05_Ide", str(c), wd=wd / ("mut_" + sw), workers=1, timeout=3000,
                                 extra=["-dumpTrace", "json", str(wd / ("cx_%s.json" % sw))])
     # every mechanism as coded: all behaviours of <= 3 requests up to the first broken clause = the discriminating histories
-    c = cfg_file(wd, "X05_Ide_ascoded.cfg", "X05_Ide_ascoded.cfg", {"MaxOps": 3, "Record": "TRUE", "EmitBadOnly": "TRUE"}, invariants=False)
-    f_bad = pool.submit(tlc, "X05_Ide", str(c), wd=wd / "ascoded", workers=1, timeout=3000)
+    f_bad = pool.submit(tlc, "X05_Ide", "X05_Ide_ascoded.cfg", wd=wd / "ascoded", workers=1, timeout=3000)
     f_emit3 = None if quick else pool.submit(tlc, "X05_Ide", "X05_Ide_emit3.cfg", wd=wd / "emit3", workers=1, timeout=3000)
     r = f_check.result()
+    # every step is judged by an Assert inside the action (the last step is not part of the state): a broken clause stops TLC
+    if "X05 clause broken" in r.out:
+        r.violated = ["a clause of the statement (Assert in action Do)"]
+    require(r.violated or r.rc == 0, "X05: TLC failed on X05_Ide: %s" % (r.error or r.out[-1500:]))
     rep.add_mc("X05_Ide(all mechanisms as the statement needs them)", r, "all behaviours of <= %d requests" % depth)
     if r.violated:
         rep.design_violation("X05_Ide", r)
@@ -364,7 +367,7 @@ def run(rep, tier):
     rep.notes["vectors"] = {"all_behaviours_of_2": len(allb), "simulated_of_6": len(sims), "opened_of_3": len(opened), "counterexamples": sum(1 for v in vectors if v["fam"].startswith("cx")),
                             "as_coded_model": sum(1 for v in vectors if v["fam"] == "ascoded"), "distinct_total": len(vectors)}
     # ---- the real code
-    lib_spec = {"theories": ["logic_base", "logic"], "sessions": 5 if quick else 120, "max_steps": 6 if quick else 14}
+    lib_spec = {"theories": ["logic_base", "logic"], "sessions": 5 if quick else 60, "max_steps": 6 if quick else 14}
     nshard = 1 if quick else 3
     shards = [vectors[i::nshard] for i in range(nshard)]
     events, info = execute(wd, shards, lib_spec, timing)
@@ -406,13 +409,13 @@ def run(rep, tier):
                              "sessions": sum(1 for e in events if e["kind"] == "start"),
                              "http500_by_exception": {k: sum(1 for e in reqs if e["rkind"] == "500" and (e["exc"] or "?").split(":")[0] == k)
                                                       for k in sorted({(e["exc"] or "?").split(":")[0] for e in reqs if e["rkind"] == "500"})}}
-    # ---- one textual mutant of the structural clauses (cheap)
+    # ---- textual mutants of the structural clauses (thorough tier: one more JVM each)
     t1 = time.time()
-    spec_mutant(rep, "remove_empties_the_directory", "X05_Ide", "X05_Ide_fixed.cfg",
-                [("X05_Ide.tla", "ELSE [s |-> s, disk |-> [disk EXCEPT ![u][f] = None], ans |-> A0(\"ok\")]",
-                  "ELSE [s |-> s, disk |-> [disk EXCEPT ![u] = [g \\in MFiles |-> None]], ans |-> A0(\"ok\")]")], ["RemoveExact"], wd=wd, workers=1)
     if not quick:
-        spec_mutant(rep, "load_answers_from_the_snapshot_only", "X05_Ide", "X05_Ide_fixed.cfg",
+        spec_mutant(rep, "remove_empties_the_directory", "X05_Ide", "X05_Ide_fixed.cfg",
+                    [("X05_Ide.tla", "ELSE [s |-> s, disk |-> [disk EXCEPT ![u][f] = None], ans |-> A0(\"ok\")]",
+                      "ELSE [s |-> s, disk |-> [disk EXCEPT ![u] = [g \\in MFiles |-> None]], ans |-> A0(\"ok\")]")], ["RemoveExact"], wd=wd, workers=1)
+        spec_mutant(rep, "metadata_snapshot_never_refreshed_on_access", "X05_Ide", "X05_Ide_fixed.cfg",
                     [("X05_Ide.tla", "EnsureMeta(sw, s, disk, u) == IF sw.fresh \\/ ~s.meta[u].loaded", "EnsureMeta(sw, s, disk, u) == IF ~s.meta[u].loaded")],
                     ["Persistence", "Faithful", "Totality"], wd=wd, workers=1)
     timing["spec_mutants"] = round(time.time() - t1, 1)
@@ -422,9 +425,9 @@ def run(rep, tier):
     require(n["with_reference"] >= (300 if quick else 3000), "X05: too few requests with a reference answer: %d" % n["with_reference"])
     require(n["with_solo_twin"] >= (100 if quick else 1000), "X05: too few requests with a solo twin: %d" % n["with_solo_twin"])
     lib_reqs = [e for e in reqs if e["fam"] == "lib"]
-    require(len(lib_reqs) >= (40 if quick else 1000), "X05: too few requests in the library sessions: %d" % len(lib_reqs))
+    require(len(lib_reqs) >= (40 if quick else 600), "X05: too few requests in the library sessions: %d" % len(lib_reqs))
     if not rep.violations:
-        require(sum(1 for e in lib_reqs if e["op"] == "apply" and e["rkind"] == "proof") >= (10 if quick else 300), "X05: recorded steps hardly ever apply")
+        require(sum(1 for e in lib_reqs if e["op"] == "apply" and e["rkind"] == "proof") >= (10 if quick else 150), "X05: recorded steps hardly ever apply")
     require(sum(1 for e in reqs if e["op"] == "apply" and e["rkind"] == "err") >= 5, "X05: no failing step")
 
 
